@@ -11,6 +11,7 @@ from __future__ import annotations
 
 import copy
 import itertools
+import os
 import json
 import random
 import time
@@ -158,6 +159,30 @@ def long_histories(run, rule: str, size: int, steps: int, rnd: random.Random, al
     return len(hist)
 
 
+def apalache_inductive(size: int, rule: str, timeout=1500):
+    """Apalache: Init => IndInv (length 0) and IndInv and Next => IndInv' (length 1) on spec/apalache/PyLookupInd.tla; plus two probes
+    that must be VIOLATED from IndInit (the inductive hypothesis is not vacuous)."""
+    import shutil  # noqa: PLC0415
+    import subprocess  # noqa: PLC0415
+    import tempfile  # noqa: PLC0415
+
+    d = tempfile.mkdtemp(prefix="apa-", dir=env.workdir())
+    shutil.copy(os.path.join(env.SPEC, "apalache", "PyLookupInd.tla"), d)
+    mc = f"MC_{rule}_{size}"
+    with open(os.path.join(d, mc + ".tla"), "w") as f:
+        f.write(f'---- MODULE {mc} ----\nEXTENDS PyLookupInd\nCInit == Size = {size} /\\ Rule = "{rule}"\n====\n')
+
+    def go(init, inv, length):
+        p = subprocess.run(["apalache-mc", "check", "--cinit=CInit", f"--init={init}", f"--inv={inv}", f"--length={length}", f"--out-dir={d}/out", mc + ".tla"],
+                           cwd=d, capture_output=True, text=True, timeout=timeout)
+        return "NoError" if "The outcome is: NoError" in p.stdout else "Error" if "The outcome is: Error" in p.stdout else "FAILED:" + p.stdout[-300:]
+
+    res = {"base": go("Init", "IndInv", 0), "step": go("IndInit", "IndInv", 1),
+           "probe_full_table": go("IndInit", "ProbeNotFull", 0), "probe_key_in_use": go("IndInit", "ProbeIdle", 0)}
+    shutil.rmtree(d, ignore_errors=True)
+    return res
+
+
 def main(tier: str) -> int:
     run = report.Run("C05", "model_checking", tier)
     rnd = random.Random(env.seed())
@@ -182,6 +207,9 @@ def main(tier: str) -> int:
         return job, tlc.run("MCKeys", cfg, module_text=text, workers=2, timeout=900)
 
     t0 = time.time()
+    apa_jobs = [(8, "prefix")] if tier == "quick" else [(8, r_) for r_ in RULES] + [(16, r_) for r_ in RULES]
+    apa_pool = ThreadPoolExecutor(6)
+    apa_futs = {j: apa_pool.submit(apalache_inductive, *j) for j in apa_jobs}
     with ThreadPoolExecutor(6) as ex:
         model = list(ex.map(tlc_job, jobs))
         refinements = list(ex.map(refine_job, [(s_, r_) for s_ in (range(1, 4) if tier == "quick" else range(1, 5)) for r_ in RULES]))
@@ -262,8 +290,21 @@ def main(tier: str) -> int:
     states += gen18
     trans += gen18
     real_transitions += e2e
+    apa = {}
+    for (size, rule), fut in apa_futs.items():
+        try:
+            r_ = fut.result(timeout=3000)
+        except Exception as ex:  # noqa: BLE001
+            r_ = {"base": f"FAILED:{ex}", "step": "", "probe_full_table": "", "probe_key_in_use": ""}
+        apa[f"{rule}/{size}"] = r_
+        if r_["base"] != "NoError" or r_["step"] != "NoError":
+            env.machinery_failure(f"C05: Apalache does not confirm the inductive invariant of PyLookupInd for {rule}/{size}: {r_}")
+        if r_["probe_full_table"] != "Error" or r_["probe_key_in_use"] != "Error":
+            env.machinery_failure(f"C05: the inductive hypothesis of PyLookupInd looks vacuous for {rule}/{size}: {r_}")
+    apa_pool.shutdown()
     return run.finish({
         "states": states, "transitions": trans, "traces_validated_against_impl": real_transitions, "end_to_end_histories": e2e,
+        "apalache_inductive_invariant": apa,
         "samples": samples, "exhaustive": True, "per_table": table, "long_history_steps": steps,
         "tlc_wall_s": round(tlc_wall, 1), "quotient_refinement_states": ref_states,
         "explanation": "spec/PyLookupKeys.tla (concrete keys) refines spec/PyLookup.tla (index-canonical quotient): checked by TLC as a refinement mapping; TLC closes PyLookup for every size/rule (closure under every next key = all histories); the same graph is walked on real "
